@@ -32,6 +32,7 @@ func ConcatKey(contract common.Address, args ...[]byte) []byte {
 	for _, arg := range args {
 		temp = append(temp, arg...)
 	}
+	verifOnConcatKey(contract, args, temp)
 	return temp
 }
 
